@@ -65,7 +65,10 @@ ITER_TABLE = {
 }
 
 
-@rule("N1", doc="variant minimisation is keyed on a name-free shape")
+LOSSY_KEYS = {"public_slot_occurrences", "private_slot_occurrences", "slots", "public_slots", "private_slots", "ids", "len"}
+
+
+@rule("N1", doc="variant minimisation is keyed on a name-free shape, and the key separates distinct variants")
 def n1(ctx):
     crate = ctx.lib()
     for fid in C.need("canonical-variant", canonical_variant_functions(crate)):
@@ -78,6 +81,9 @@ def n1(ctx):
             for c in cmps:
                 rs = [b.role_of_operand(a) for a in c.args]
                 ok = all(role_mentions_call(r, "weak_shape") and any(isinstance(x, tuple) and x[0] == "call" and x[1] in ("all_slot_occurrences", "slots", "public_slot_occurrences") and all(role_mentions_call(a_, "weak_shape") for a_ in x[3]) for x in role_walk(r)) for r in rs)
+                tot = all(any(isinstance(x, tuple) and x[0] == "call" and x[1] == "all_slot_occurrences" for x in role_walk(r)) or not any(isinstance(x, tuple) and x[0] == "call" and x[1] in LOSSY_KEYS for x in role_walk(r)) for r in rs)
+                ctx.check(tot, "key-separates-variants:" + C.fkey(b), "the key compared is the full occurrence vector of the weak shape (distinct variants never tie)",
+                          "the canonical group variant is chosen by comparing a projection of the weak shape that drops occurrences (%s): distinct variants tie, the winner is whichever the enumeration lists first, so the canonical form of a node depends on which member of its orbit was passed in — congruent nodes get different hashcons keys" % [role_str(r)[:50] for r in rs], where_of(b, c.bb))
                 ctx.check(ok, "key-is-name-free:" + C.fkey(b), "the canonical variant minimises the occurrence vector of the weak shape (loop form)",
                           "the canonical group variant of a node is chosen by comparing %s: the choice depends on the node's slot NAMES" % [role_str(r)[:60] for r in rs], where_of(b, c.bb))
                 lps = [l for l in C.iterator_loops(b) if any("variants" in x[1] for x in role_walk(l[1]) if isinstance(x, tuple) and x[0] == "call")]
@@ -95,6 +101,10 @@ def n1(ctx):
                     ok = bool(ws) and all(any(isinstance(y, tuple) and y[0] == "call" and y[1] == "weak_shape" for y in role_walk(a)) or not any(isinstance(y, tuple) and y[0] == "param" and y[1] != "_closure" for y in role_walk(a))
                                           for x in role_walk(r) if isinstance(x, tuple) and x[0] == "call" and x[1] in ("all_slot_occurrences", "slots", "public_slot_occurrences") for a in x[3])
                     why = role_str(r)
+                    lossy = sorted({x[1] for x in role_walk(r) if isinstance(x, tuple) and x[0] == "call" and x[1] in LOSSY_KEYS})
+                    tot = any(isinstance(x, tuple) and x[0] == "call" and x[1] == "all_slot_occurrences" for x in role_walk(r)) or not lossy
+                    ctx.check(tot, "key-separates-variants:" + C.fkey(b), "the minimisation key is the full occurrence vector of the weak shape (distinct variants never tie)",
+                              "the canonical group variant is chosen by a key that drops occurrences of the weak shape (%s): distinct variants tie, min_by_key returns whichever the enumeration lists first, so the canonical form of a node depends on which member of its orbit was passed in — congruent nodes (e.g. binder nodes whose bound slot is moved by the child's symmetry) get different hashcons keys and an implied equality is not reported" % ", ".join(lossy), where_of(b, c.bb))
                 else:
                     why = role_str(cl)
             else:
